@@ -819,6 +819,100 @@ static void caseM(uint64_t i, vr::Ctx& ctx)
     }
 }
 
+// ---- T: API sequences on a built media type --------------------------------------------------------------------------
+// a MediaType built from table entries (type, subtype[, suffix]) and then driven through every sequence of up to 4
+// operations over { take the string form, setQuality(0.5), setQuality(1), setQuality(0.05), setParam(charset, utf-8),
+// setParam(b, 1), continue on a copy }. After every operation the string form must describe the object as it is now:
+// parsing it gives back type, subtype, suffix, the quality set last and exactly the parameters set so far.
+static const int kNTOps = 7;
+static const char* kTOpNames[] = { "toString", "setQuality(0.5)", "setQuality(1)", "setQuality(0.05)", "setParam(charset,utf-8)", "setParam(b,1)", "copy" };
+static uint64_t nT;
+static void caseT(uint64_t i, vr::Ctx& ctx)
+{
+    static const struct
+    {
+        Type t;
+        Subtype s;
+        Suffix f;
+        bool withSuffix;
+    } carriers[] = { { Type::Text, Subtype::Plain, Suffix::None, false }, { Type::Application, Subtype::Json, Suffix::None, false }, { Type::Application, Subtype::Xhtml, Suffix::Xml, true }, { Type::Star, Subtype::Star, Suffix::None, false } };
+    const int nCar = 4;
+    int car        = int(i % nCar);
+    uint64_t code  = i / nCar;
+    // sequences of length 1..4, shortest first
+    int len = 1;
+    uint64_t span = kNTOps;
+    while (code >= span)
+    {
+        code -= span;
+        span *= kNTOps;
+        ++len;
+    }
+    std::vector<int> ops(len);
+    for (int k = len - 1; k >= 0; --k)
+    {
+        ops[k] = int(code % kNTOps);
+        code /= kNTOps;
+    }
+    std::string desc = std::string("built #") + std::to_string(car) + ":";
+    for (int o : ops)
+        desc += std::string(" ") + kTOpNames[o];
+    ctx.note("api " + desc);
+    MediaType m = carriers[car].withSuffix ? MediaType(carriers[car].t, carriers[car].s, carriers[car].f) : MediaType(carriers[car].t, carriers[car].s);
+    int wantQ   = -1;
+    std::map<std::string, std::string> wantP;
+    for (size_t k = 0; k < ops.size(); ++k)
+    {
+        switch (ops[k])
+        {
+        case 0:
+            (void)m.toString();
+            break;
+        case 1:
+            m.setQuality(Q(50));
+            wantQ = 50;
+            break;
+        case 2:
+            m.setQuality(Q(100));
+            wantQ = 100;
+            break;
+        case 3:
+            m.setQuality(Q(5));
+            wantQ = 5;
+            break;
+        case 4:
+            m.setParam("charset", "utf-8");
+            wantP["charset"] = "utf-8";
+            break;
+        case 5:
+            m.setParam("b", "1");
+            wantP["b"] = "1";
+            break;
+        default: {
+            MediaType copy = m;
+            m              = copy;
+        }
+        }
+        std::string text = m.toString();
+        Seen s           = via_string(text);
+        bool ok = s.kind == 0 && s.top == (int)carriers[car].t && s.sub == (int)carriers[car].s && s.suffix == (int)carriers[car].f && s.q == wantQ && s.params == wantP;
+        ctx.count("evaluations", 1);
+        ctx.count("transitions", 1);
+        ctx.state(vr::hash_str(text));
+        if (!ok)
+        {
+            std::string wp;
+            for (auto& kv : wantP)
+                wp += kv.first + "=" + kv.second + ",";
+            ctx.violation(std::string("c18:api-sequence:string-form-does-not-describe-the-object:after-") + kTOpNames[ops[k]],
+                          "{\"sequence\":" + vr::jstr(desc) + ",\"position\":" + std::to_string(k) + ",\"string_form\":" + vr::jstr(text) + ",\"parsed_back\":" + vr::jstr(s.canon()) + ",\"object_q\":" + std::to_string(wantQ) + ",\"object_params\":" + vr::jstr(wp) + "}");
+            break;
+        }
+    }
+    ctx.nontrivial(vr::hash_str(desc, 7));
+    ctx.outcome("api sequence of " + std::to_string(ops.size()));
+}
+
 int main(int argc, char** argv)
 {
     vr::Options opt = vr::parse_args(argc, argv);
@@ -853,10 +947,12 @@ int main(int argc, char** argv)
     bM     = (nMfull + kBlock - 1) / kBlock + (uint64_t)kNMPrefix * ((nMpre + kBlock - 1) / kBlock);
     init_subst();
     init_badq();
-    static uint64_t bS, bR;
+    static uint64_t bS, bR, bT;
     bS             = gSIndex.size();
     bR             = gBadQ.size() * 9;
-    uint64_t total = bP + bQ + bB + bM + bS + bR;
+    nT             = 4ull * (7 + 49 + 343 + 2401);
+    bT             = (nT + kBlock - 1) / kBlock;
+    uint64_t total = bP + bQ + bB + bM + bS + bR + bT;
     return vr::run(opt, total, [](uint64_t idx, vr::Ctx& ctx) {
         ctx.count("executions", 1);
         auto block = [&](uint64_t blk, uint64_t n, void (*fn)(uint64_t, vr::Ctx&)) {
@@ -873,8 +969,10 @@ int main(int argc, char** argv)
             caseM(idx - bP - bQ - bB, ctx);
         else if (idx < bP + bQ + bB + bM + bS)
             caseS(idx - bP - bQ - bB - bM, ctx);
-        else
+        else if (idx < bP + bQ + bB + bM + bS + bR)
             caseR(idx - bP - bQ - bB - bM - bS, ctx);
+        else
+            block(idx - bP - bQ - bB - bM - bS - bR, nT, caseT);
         if (idx % 97 == 0)
             ctx.sample("{\"case\":" + std::to_string(idx) + ",\"last_input\":" + vr::jstr(ctx.shm->slots[ctx.worker].note) + "}");
     });
